@@ -169,6 +169,42 @@ struct ServerOut {
     note: String,
 }
 
+fn local(name: &str) -> &str {
+    name.rsplit(':').next().unwrap_or(name)
+}
+
+/// RFC 6241 section 6.2 subtree filtering of `data` (an element with the same name as `filter`):
+/// a filter node without content selects the whole subtree; leaf children with text are content
+/// matches (all must match; then, if there are no other children, every sibling is included);
+/// other children are selection / containment nodes and are the only children included.
+fn subtree_filter(filter: &crate::junos::Node, data: &crate::junos::Node) -> Option<crate::junos::Node> {
+    if filter.children.is_empty() && filter.text.trim().is_empty() {
+        return Some(data.clone());
+    }
+    let (matches, others): (Vec<_>, Vec<_>) = filter.children.iter().partition(|c| c.children.is_empty() && !c.text.trim().is_empty());
+    for m in &matches {
+        if !data.children.iter().any(|d| local(&d.name) == local(&m.name) && d.text.trim() == m.text.trim()) {
+            return None;
+        }
+    }
+    if others.is_empty() {
+        return Some(data.clone());
+    }
+    let mut out = crate::junos::Node { name: data.name.clone(), attrs: data.attrs.clone(), children: Vec::new(), text: String::new() };
+    for d in &data.children {
+        if matches.iter().any(|m| local(&m.name) == local(&d.name)) {
+            out.children.push(d.clone());
+        } else if let Some(f) = others.iter().find(|f| local(&f.name) == local(&d.name)) {
+            if let Some(x) = subtree_filter(f, d) {
+                out.children.push(x);
+            }
+        }
+    }
+    // a containment node none of whose children matched anything is kept as an empty element: that is how
+    // Junos answers (the enclosing hierarchy is emitted), and it is the form the repository's fixtures have
+    Some(out)
+}
+
 fn reply(id: &str, body: &str) -> String {
     format!("<rpc-reply message-id=\"{id}\" xmlns=\"{BASE_NS}\" xmlns:junos=\"http://xml.juniper.net/junos/23.1R0/junos\">{body}</rpc-reply>{MARKER}")
 }
@@ -223,7 +259,22 @@ fn serve(accept: impl FnOnce() -> Option<Box<dyn AgentConn>>, scn: &Scenario) ->
                         // keep only <data>..</data>
                         let a = full.find("<data>").unwrap_or(0);
                         let b = full.rfind("</data>").map_or(full.len(), |i| i + 7);
-                        full[a..b].to_string()
+                        let data = full[a..b].to_string();
+                        // a subtree filter in the request is applied as RFC 6241 section 6 describes
+                        match (op.child("filter").filter(|f| f.attr("type").map_or(true, |t| t == "subtree")), parse_xml(&data)) {
+                            (Some(filter), Ok(tree)) if !filter.children.is_empty() => {
+                                let mut kept = crate::junos::Node { name: "data".into(), ..crate::junos::Node::default() };
+                                for top in &tree.children {
+                                    if let Some(f) = filter.children.iter().find(|f| local(&f.name) == local(&top.name)) {
+                                        if let Some(x) = subtree_filter(f, top) {
+                                            kept.children.push(x);
+                                        }
+                                    }
+                                }
+                                crate::c13::serialize(&kept, &[], &["data"])
+                            }
+                            _ => data,
+                        }
                     } else {
                         format!("<data>{}</data>", working.as_ref().unwrap_or(&out.ephemeral).render_configuration())
                     };
@@ -877,6 +928,56 @@ pub fn c03_slice(report: &mut Report) -> u64 {
         }
     }
     report.set("irr_loss_conditions_whose_orders_were_not_all_observed", orders_unobserved);
+    runs
+}
+
+// ---------------- C16: selection end to end (the server applies the agent's own subtree filter) ----------------
+/// The fake Junos applies the subtree filter of the agent's get-config request, so what the candidate
+/// reader sees is what a router would send for that filter. Statements with the annotation but with
+/// other content must never be loaded; the plain managed ones next to unannotated statements must be.
+pub fn c16_slice(report: &mut Report) -> u64 {
+    let model: Model = base_model(0);
+    let irrd = Irrd::start(model.db.clone());
+    let with_body = |name: &str, expr: Option<&str>, body: &str| {
+        let mut st = match expr {
+            Some(e) => managed_stmt(name, e),
+            None => RunningStmt { name: name.to_string(), attrs: String::new(), body: String::new() },
+        };
+        st.body = format!("<name>{name}</name>{body}");
+        st
+    };
+    let term = "<term><name>t1</name><from><family>inet</family></from><then><accept/></then></term>";
+    let bodies: Vec<(&str, String)> = vec![
+        ("own term before the reject", format!("{term}<then><reject/></then>")),
+        ("own accepting terms in the shape the agent installs", "<term><name>inet</name><from><family>inet</family><route-filter><address>192.0.2.0/24</address><choice-ident>prefix-length-range</choice-ident><choice-value>/24-/32</choice-value></route-filter></from><then><accept/></then></term><then><reject/></then>".to_string()),
+        ("default action accept", "<then><accept/></then>".to_string()),
+        ("a from clause at statement level", "<from><protocol>bgp</protocol></from><then><reject/></then>".to_string()),
+    ];
+    let mut runs = 0u64;
+    // control: only well-formed managed and unannotated statements - the run must succeed and load the managed ones
+    {
+        let running = vec![managed_stmt("fltr-a", "AS65001"), with_body("hand-made", None, &format!("{term}<then><reject/></then>")), managed_stmt("fltr-b", "AS65002")];
+        let scn = Scenario { instance_name: None, running, ephemeral: Instance::default(), fault: None, expected_loads: 0, irr_plan: Plan::default() };
+        let rec = run_agent(&scn, &irrd, "C16-control");
+        runs += 1;
+        let case = json!({"requests_seen": rec.rpcs, "exit_status": rec.exit, "installed_after": rec.ephemeral_after.render_configuration(), "agent_log_tail": rec.stderr_tail});
+        if rec.exit != Some(0) || !rec.ephemeral_after.policies.contains_key("fltr-a") || !rec.ephemeral_after.policies.contains_key("fltr-b") {
+            report.violation("C16:e2e:managed-statements-not-loaded", "managed statements next to an unannotated hand-made policy were not loaded (the server applies the agent's own get-config filter)", case.clone());
+        }
+        if rec.ephemeral_after.policies.contains_key("hand-made") || rec.raw_requests.iter().any(|r| r.contains("<load-configuration") && r.contains("<name>hand-made</name>")) {
+            report.violation("C16:e2e:unannotated-statement-selected", "a statement without the annotation was written to", case);
+        }
+    }
+    for (what, body) in &bodies {
+        let running = vec![managed_stmt("fltr-a", "AS65001"), with_body("odd-one", Some("AS65002"), body)];
+        let scn = Scenario { instance_name: None, running, ephemeral: Instance::default(), fault: None, expected_loads: 0, irr_plan: Plan::default() };
+        let rec = run_agent(&scn, &irrd, "C16-odd");
+        runs += 1;
+        let case = json!({"statement_body": body, "requests_seen": rec.rpcs, "exit_status": rec.exit, "installed_after": rec.ephemeral_after.render_configuration(), "get_config_requests": rec.raw_requests.iter().filter(|r| r.contains("<get-config")).collect::<Vec<_>>(), "agent_log_tail": rec.stderr_tail});
+        if rec.ephemeral_after.policies.contains_key("odd-one") || rec.raw_requests.iter().any(|r| r.contains("<load-configuration") && r.contains("<name>odd-one</name>")) {
+            report.violation(&format!("C16:e2e:statement-with-other-content-selected:{}", what.replace(' ', "-")), &format!("an annotated statement with other content ({what}) was selected as managed and written to"), case);
+        }
+    }
     runs
 }
 
